@@ -460,6 +460,117 @@ func genC11(repo string) (string, error) {
 		return true
 	})
 	sb.WriteString("def rateValueExpr : String := " + strconv.Quote(rate) + "\n")
+	// ---- the expression layer: binaryEval's three point cases, eval's division, expression.eval's
+	// dispatch, the default agg type of a field without function, RateCall's nil guard
+	_, bf, err := ParseFile(repo, "aggregation/binary.go")
+	if err != nil {
+		return "", err
+	}
+	be := FindFunc(bf, "", "binaryEval")
+	if be == nil {
+		return "", fmt.Errorf("binaryEval not found")
+	}
+	var beCases, beGuards []string
+	ast.Inspect(be, func(n ast.Node) bool {
+		switch x := n.(type) {
+		case *ast.CaseClause:
+			var cond []string
+			for _, e := range x.List {
+				cond = append(cond, c11Text(e))
+			}
+			var body []string
+			for _, st := range x.Body {
+				body = append(body, c11Text(st))
+			}
+			beCases = append(beCases, strings.Join(cond, ",")+" => "+strings.Join(body, " ; "))
+		case *ast.IfStmt:
+			var body []string
+			for _, st := range x.Body.List {
+				body = append(body, c11Text(st))
+			}
+			beGuards = append(beGuards, c11Text(x.Cond)+" => "+strings.Join(body, " ; "))
+		}
+		return true
+	})
+	sb.WriteString("def binaryEvalPointCases : List String := " + LeanStrList(beCases) + "\n")
+	sb.WriteString("def binaryEvalGuards : List String := " + LeanStrList(beGuards) + "\n")
+	var evCases []string
+	ast.Inspect(FindFunc(bf, "", "eval"), func(n ast.Node) bool {
+		if x, ok := n.(*ast.CaseClause); ok {
+			var cond, body []string
+			for _, e := range x.List {
+				cond = append(cond, c11Text(e))
+			}
+			for _, st := range x.Body {
+				body = append(body, c11Text(st))
+			}
+			evCases = append(evCases, strings.Join(cond, ",")+" => "+strings.Join(body, " ; "))
+		}
+		return true
+	})
+	sb.WriteString("def binaryOpCases : List String := " + LeanStrList(evCases) + "\n")
+	_, ef, err := ParseFile(repo, "aggregation/expression.go")
+	if err != nil {
+		return "", err
+	}
+	var exCases, exBodies []string
+	if fd := FindFunc(ef, "expression", "eval"); fd != nil {
+		for _, st := range fd.Body.List {
+			ts, ok := st.(*ast.TypeSwitchStmt)
+			if !ok {
+				continue
+			}
+			for _, cl := range ts.Body.List {
+				cc := cl.(*ast.CaseClause)
+				var cond []string
+				for _, e := range cc.List {
+					cond = append(cond, c11Text(e))
+				}
+				first := ""
+				if len(cc.Body) > 0 {
+					first = c11Text(cc.Body[0])
+					if len(first) > 60 {
+						first = first[:60]
+					}
+				}
+				exCases = append(exCases, strings.Join(cond, ","))
+				exBodies = append(exBodies, first)
+			}
+		}
+	}
+	sb.WriteString("def expressionEvalCases : List String := " + LeanStrList(exCases) + "\n")
+	sb.WriteString("def expressionEvalBodies : List String := " + LeanStrList(exBodies) + "\n")
+	sb.WriteString("def expressionFuncCallCalls : List String := " + LeanStrList(CallSeq(FindFunc(ef, "expression", "funcCall"))) + "\n")
+	sb.WriteString("def expressionBinaryEvalCalls : List String := " + LeanStrList(CallSeq(FindFunc(ef, "expression", "binaryEval"))) + "\n")
+	dfp := FindFunc(tf, "Type", "GetDefaultFuncFieldParams")
+	if dfp == nil {
+		return "", fmt.Errorf("GetDefaultFuncFieldParams not found")
+	}
+	var dp []string
+	for _, t := range typeNames {
+		r, ok := se.run(dfp, map[string]string{c11RecvName(dfp): t}, 0)
+		if !ok || !strings.HasPrefix(r, "[") {
+			return "", fmt.Errorf("cannot evaluate GetDefaultFuncFieldParams(%s): %q", t, r)
+		}
+		var cs []string
+		for _, n := range strings.Split(strings.Trim(r, "[]"), ",") {
+			c, ok := tcs[n]
+			if !ok {
+				return "", fmt.Errorf("GetDefaultFuncFieldParams(%s): unknown agg type %q", t, n)
+			}
+			cs = append(cs, strconv.FormatInt(c, 10))
+		}
+		dp = append(dp, fmt.Sprintf("(%d, [%s])", tcs[t], strings.Join(cs, ", ")))
+	}
+	fmt.Fprintf(&sb, "def defaultParamsTable : List (Nat × List Nat) := [%s]\n", strings.Join(dp, ", "))
+	rateNilGuard := false
+	ast.Inspect(FindFunc(rf, "", "RateCall"), func(n ast.Node) bool {
+		if is, ok := n.(*ast.IfStmt); ok && strings.Contains(c11Text(is.Cond), "params[0] == nil") {
+			rateNilGuard = true
+		}
+		return true
+	})
+	fmt.Fprintf(&sb, "def fixRateNilGuard : Bool := %v\n", rateNilGuard)
 	// ---- month calculator: CalcFamily ignores the segment time
 	_, ic, err := ParseFile(repo, "pkg/timeutil/interval_calculator.go")
 	if err != nil {
